@@ -76,6 +76,21 @@ C07_State(S) ==
       \/ r.act = "ServicingTrip"
            /\ (IF r.rn > 0 THEN r.re \notin r.obdest ELSE r.pos \notin r.obdest)}}
 
+
+\* "a trip is started only at the request's origin and ended only at its destination": one action (an instruction or a
+\* vehicle update) of vehicle v, B before, T after.  A vehicle that runs dry on the way strands - its trip is not ended -
+\* which only the vehicle's own update can do (isUpdate).
+C07_Step(B, T, v, isUpdate) ==
+  IF v \notin DOMAIN B.veh \/ v \notin DOMAIN T.veh THEN {} ELSE
+  LET b == B.veh[v]  t == T.veh[v] IN
+     (IF b.act = "ServicingTrip" /\ t.act # "ServicingTrip" /\ b.ob # None
+         /\ ~(isUpdate /\ t.act = "OutOfService")
+         /\ t.pos \notin b.obdest
+      THEN {V("C07", "trip_ends_at_destination", t.act, v)} ELSE {})
+  \cup (IF t.act = "ServicingTrip" /\ b.act # "ServicingTrip"
+         /\ ~(b.act = "DispatchTrip" /\ HasReq(B, b.tgt) /\ b.pos = B.req[b.tgt].pos)
+      THEN {V("C07", "trip_starts_at_origin", b.act, v)} ELSE {})
+
 -----------------------------------------------------------------------------
 (* C10 - fleet membership is enforced when an interaction STARTS: evaluated on every step in which a     *)
 (* vehicle's (activity, target) changes, against the memberships at that moment                          *)
